@@ -294,3 +294,15 @@ func applyEdits(repo string, edits []overlaySpec) (map[string][]byte, error) {
 	}
 	return ov, nil
 }
+
+// isRepoFunc: fn is declared in the analysed module (has a body we can read).
+func (c *Ctx) isRepoFunc(fn *ssa.Function) bool {
+	p := fn.Pkg
+	if p == nil && fn.Parent() != nil {
+		p = fn.Parent().Pkg
+	}
+	if p == nil && fn.Origin() != nil {
+		p = fn.Origin().Pkg
+	}
+	return p != nil && strings.HasPrefix(p.Pkg.Path(), "github.com/safing/portbase")
+}
